@@ -169,6 +169,9 @@ def structural_update0(op, tree_tpl, parallel=False):
                            '_generate': [g]}}
     if o == 'moveback':
         return {'pool': {'_move': [{'source': (op['k'],), 'target': 'agents'}]}}
+    if o == 'add2':
+        return {'agents': {'_add': [{'key': op['k'], 'state': {'v': {'x': op['x0']}}}]},
+                'agents2': {'_add': [{'key': op['k2'], 'state': {'v': {'x': op['x0']}}}]}}
     if o == 'adddel':
         return {'agents': {'_add': [{'key': op['k'], 'state': {'v': {'x': op['x0']}}}],
                            '_delete': [op['k2']]}}
@@ -237,7 +240,8 @@ class Director(Process):
         self.par = False
 
     def ports_schema(self):
-        return {'agents': glob(), 'pool': glob(),
+        # ('agents2': a second port on the store of the agents)
+        return {'agents': glob(), 'pool': glob(), 'agents2': glob(),
                 'leaves': copy.deepcopy(LEAVES), 'root': {'_output': True}}
 
     def next_update(self, timestep, states):
@@ -474,7 +478,8 @@ def run_history(ops, initial=(), parallel=False, via_composite=False):
     sdirector.par = parallel
     watch = any(b == 'agents' and k == 'a' for b, k, _t, _x in initial)
     processes = {'director': director, 'observer': Observer({'watch': watch})}
-    dtopo = {'agents': ('agents',), 'pool': ('pool',), 'leaves': ('leaves',), 'root': ()}
+    dtopo = {'agents': ('agents',), 'pool': ('pool',), 'agents2': ('agents',),
+             'leaves': ('leaves',), 'root': ()}
     if ops and ops[0].get('gdict'):
         # the same wiring written as glob dictionaries
         dtopo['agents'] = {'_path': ('agents',), '*': {}}
@@ -663,6 +668,11 @@ def applicable_ops(model, tpls=('T1', 'T2', 'T3'), names=NAMES, max_comps=3):
                     if j not in po and j != k:
                         ops.append({'op': 'gen2', 'k': k, 'tpl': tpls[0], 'x0': 0, 'k2': j})
                         break
+            if n + 1 < max_comps:
+                for j in names:
+                    if j not in ag and j != k:
+                        ops.append({'op': 'add2', 'k': k, 'x0': 5, 'k2': j})
+                        break
             for j in ag:
                 if j != k:
                     ops.append({'op': 'adddel', 'k': k, 'x0': 5, 'k2': j})
@@ -693,7 +703,9 @@ def apply_model(model, op):
         m['leaves'][op['k']] = op['v']
     if o == 'delleaf':
         del m['leaves'][op['k']]
-    if o in ('add', 'adddel'):
+    if o == 'add2':
+        m['agents'][op['k2']] = 'T0'
+    if o in ('add', 'adddel', 'add2'):
         m['agents'][op['k']] = 'T0'
     if o in ('gen', 'gendel', 'gen2'):
         m['agents'][op['k']] = op['tpl']
